@@ -54,6 +54,18 @@ def compare(base, other, t):
 
 def replay(d):
     inp = d["input"]
+    if inp.get("kind") == "threshold-cached":
+        import shutil, tempfile
+        d = tempfile.mkdtemp(prefix="c13cache_")
+        try:
+            base = {i: r for i, r in zip(inp["reactions"], P.rebalance(inp["reactions"], confidence_threshold=0))}
+            for t in inp["ts"]:
+                rows = P.rebalance(inp["reactions"], confidence_threshold=t, cache=True, cache_dir=d)
+                if any(compare(base[i], row, t) for i, row in zip(inp["reactions"], rows)):
+                    return True
+            return False
+        finally:
+            shutil.rmtree(d, ignore_errors=True)
     if inp.get("kind") != "threshold":
         return True
     b = P.rebalance([inp["reaction"]], confidence_threshold=0)[0]
@@ -116,4 +128,31 @@ def check(run):
     run.bounded("threshold-sweep", "%d reactions (%d with an MCS-based result) x %d thresholds incl. observed confidences and their float neighbours"
                 % (len(pick), len(pick) - len(others), len(ts)), cases, len(pick) * len(ts), fails[:8], False,
                 [{"thresholds": ts[:8], "confidences": confs[:5]}])
+    # the same relation with the result cache switched on and shared between the runs (a threshold change must never be served a
+    # row computed under another threshold)
+    import shutil
+    import tempfile
+    cfails, ccases = [], 0
+    d = tempfile.mkdtemp(prefix="c13cache_")
+    try:
+        seq = []
+        for c in confs[:2 if run.tier == "quick" else 8]:
+            seq += [c, math.nextafter(c, 2.0), math.nextafter(c, -1.0), min(1.0, c + 0.0004), max(0.0, c - 0.0004)]
+        seq = [t for t in seq if 0 <= t <= 1]
+        sub = [i for i, _ in mcs[:6]] + [i for i, _ in others[:2]]
+        for t in seq:
+            try:
+                rows = P.rebalance(sub, confidence_threshold=t, cache=True, cache_dir=d)
+            except Exception as e:
+                cfails.append(({"kind": "threshold-cached", "reactions": sub, "ts": seq, "t": t}, "cached run raised %r at threshold %r" % (e, t)))
+                continue
+            for i, row in zip(sub, rows):
+                ccases += 1
+                bad = compare(base[i], row, t)
+                if bad:
+                    cfails.append(({"kind": "threshold-cached", "reactions": sub, "ts": seq, "t": t}, "with a shared cache: " + bad))
+    finally:
+        shutil.rmtree(d, ignore_errors=True)
+    run.bounded("threshold-sweep-with-cache", "%d reactions x %d thresholds around observed confidences, result cache on and shared between the runs"
+                % (len(sub), len(seq)), ccases, max(1, len(seq)), cfails[:5], False)
     run.trust("xgboost/numpy: predict_proba is a function of the feature rows with values in [0,1] (assumed contract CONF)")
